@@ -135,7 +135,25 @@ def runScn (s : Scn) (c0 : Nat) (pre : Bool) (reps : Nat) : String :=
 
 def decoyPolicy : Policy := simplePolicy 7
 
-def exOp (kind ctor pol polAt obs ctx cons reps hosts outs env : String) : String :=
+/-- idempotence flags from the op line: a query's flag, or one flag per batch entry in order ("-" = no entries) -/
+def parseFlags (s : String) : Option (List Bool) :=
+  if s == "-" then some []
+  else s.toList.mapM fun c => if c == '1' then some true else if c == '0' then some false else none
+
+/-- `IsIdempotent()` of the statement: the query's flag; a batch: every entry's flag (`batchIdempotent`) -/
+def stmtIdempotent (kind idem : String) : Option Bool :=
+  match parseFlags idem with
+  | none => none
+  | some fl => if kind == "q" && fl.length != 1 then none else some (batchIdempotent fl)
+
+/-- speculative policy of an `ex` scenario: `-` none, `K` = K attempts with a delay that never elapses, `Kf` = K
+    attempts with a delay that elapses at once -/
+def parseSp (s : String) : Option (Nat × Bool) :=
+  if s == "-" then some (0, false)
+  else if s.endsWith "f" then (s.dropRight 1).toNat?.map fun k => (k, true)
+  else s.toNat?.map fun k => (k, false)
+
+def exOpCore (kind ctor pol polAt obs ctx cons reps hosts outs env : String) : String :=
   let hostSpecs := if hosts == "-" then [] else hosts.splitOn ","
   match parseKind kind, parsePolicy pol, cons.toNat?, reps.toNat?, hostSpecs.mapM parseHost,
         (if outs == "-" then some [] else (outs.splitOn ",").mapM parseRes),
@@ -157,6 +175,17 @@ def exOp (kind ctor pol polAt obs ctx cons reps hosts outs env : String) : Strin
     runScn scn c0 (ctx == "p" || ctx == "pd") rp
   | _, _, _, _, _, _, _ => "bad-op"
 
+/-- `executeQuery`: only ONE execution runs unless the statement is idempotent and the policy allows more; with a
+    delay that never elapses only the main execution of a speculated statement runs, so the trace is that of the
+    plain retry loop. Concurrent executions with a delay that does elapse are not predicted here (their traces are
+    checked by the `spec` / `specr` monitors). -/
+def exOp (kind ctor pol polAt obs idem sp ctx cons reps hosts outs env : String) : String :=
+  match stmtIdempotent kind idem, parseSp sp with
+  | some idm, some (spK, fast) =>
+    if fast && maxExecutions idm spK > 1 then "unpredicted:speculated"
+    else exOpCore kind ctor pol polAt obs ctx cons reps hosts outs env
+  | _, _ => "bad-op"
+
 /-- the `lim` of a policy of the form `Attempts() ≤ lim` (every policy the harness uses is of that form) -/
 def limitOf (s : String) : Option Nat :=
   match s.splitOn ":" with
@@ -172,14 +201,15 @@ def nextHostOnly (s : String) : Bool := s == "none" || s.startsWith "simple:" ||
 
 def step (_ : Unit) (ws : List String) : Unit × String :=
   ((), match ws with
-  | ["ex", kind, ctor, pol, polAt, obs, _idem, _sp, ctx, cons, _api, reps, hosts, outs] =>
-      exOp kind ctor pol polAt obs ctx cons reps hosts outs "-"
-  | ["ex", kind, ctor, pol, polAt, obs, _idem, _sp, ctx, cons, _api, reps, hosts, outs, env] =>
-      exOp kind ctor pol polAt obs ctx cons reps hosts outs env
-  | ["spec", _kind, idem, a, nh, nreq, most, released, result] =>
-      match a.toNat?, nh.toNat?, nreq.toNat?, most.toNat? with
-      | some sa, some hosts, some n, some mx =>
-        let e := maxExecutions (idem == "1") sa
+  | ["ex", kind, ctor, pol, polAt, obs, idem, sp, ctx, cons, _api, reps, hosts, outs] =>
+      exOp kind ctor pol polAt obs idem sp ctx cons reps hosts outs "-"
+  | ["ex", kind, ctor, pol, polAt, obs, idem, sp, ctx, cons, _api, reps, hosts, outs, env] =>
+      exOp kind ctor pol polAt obs idem sp ctx cons reps hosts outs env
+  | ["spec", kind, idem, a, nh, nreq, most, released, result] =>
+      match stmtIdempotent kind idem, a.toNat?, nh.toNat?, nreq.toNat?, most.toNat? with
+      | some idm, some sa, some hosts, some n, some mx =>
+        -- a statement that is not idempotent (a batch: ANY entry that is not) runs as one execution
+        let e := maxExecutions idm sa
         if result == "hang" then "reject:no-result"
         else if n > e then s!"reject:too-many-executions:{n}"
         else if n > hosts then s!"reject:more-requests-than-hosts:{n}"
@@ -191,13 +221,15 @@ def step (_ : Unit) (ws : List String) : Unit × String :=
         else if n == 0 then "reject:never-sent"
         else if released != result then s!"reject:not-first-result:{released}:{result}"
         else "accept"
-      | _, _, _, _ => "bad-op"
-  | ["specr", _kind, pol, a, nh, nreq, most, result] =>
-      -- speculative executions sharing the statement's attempt counter: every schedule obeys
-      -- `ExecutorConc.budget` (theorem C13_shared_counter_budget)
-      match parsePolicy pol, a.toNat?, nh.toNat?, nreq.toNat?, most.toNat? with
-      | some _, some sa, some hosts, some n, some mx =>
-        let e := maxExecutions true sa
+      | _, _, _, _, _ => "bad-op"
+  | ["specr", kind, idem, pol, a, nh, _mode, obs, nreq, most, result, att, obsInfo] =>
+      -- speculative executions sharing the statement's attempt counter, observed at quiescence: every schedule obeys
+      -- `ExecutorConc.budget` (theorem C13_shared_counter_budget); every request sent has been counted, the
+      -- attempts that found the context cancelled are at most one per execution (C13_shared_quiescent_accounted);
+      -- the attempts were numbered 0, 1, 2, … without gap or repetition (C13_shared_attempts_numbered)
+      match stmtIdempotent kind idem, parsePolicy pol, a.toNat?, nh.toNat?, nreq.toNat?, most.toNat?, att.toNat? with
+      | some idm, some _, some sa, some hosts, some n, some mx, some cntEnd =>
+        let e := maxExecutions idm sa
         match limitOf pol with
         | none => "bad-op"
         | some lim =>
@@ -206,8 +238,12 @@ def step (_ : Unit) (ws : List String) : Unit × String :=
           else if nextHostOnly pol && n > hosts then s!"reject:more-requests-than-hosts:{n}"
           else if nextHostOnly pol && mx > 1 then s!"reject:host-used-twice:{mx}"
           else if result == "ok" then "reject:ok-from-failing-hosts"
+          else if cntEnd < n then s!"reject:attempts-lost:{cntEnd}<{n}"
+          else if cntEnd > n + e then s!"reject:attempts-not-sent:{cntEnd}>{n}+{e}"
+          else if obs == "on" && obsInfo != (if cntEnd == 0 then "none" else s!"0-{cntEnd - 1}") then
+            s!"reject:attempt-numbers:{obsInfo}"
           else "accept"
-      | _, _, _, _, _ => "bad-op"
+      | _, _, _, _, _, _, _ => "bad-op"
   | ["kf-d10"] =>
       -- known finding KF-C13-1: the attempts do not depend on idempotence
       let out := doQuery ⟨.query, false⟩ (some (simplePolicy 1)) (fun _ => .err 9) (fun _ _ => true) 10 [1, 2] 0 0 1
